@@ -10,6 +10,7 @@ import (
 	"os"
 	"path/filepath"
 	"sort"
+	"time"
 	"testing"
 
 	"github.com/NethermindEth/juno/db"
@@ -566,5 +567,65 @@ func TestKVReplay(t *testing.T) {
 		var s any
 		_ = json.Unmarshal(b, &s)
 		out.Sample(s)
+	}
+}
+
+// TestKVEmptyKeyProbe: Put / Get / iterate / flush / reopen with the EMPTY key on one backend, in a
+// process of its own (a backend may kill the process from a background goroutine).
+func TestKVEmptyKeyProbe(t *testing.T) {
+	if !vh.Enabled() {
+		t.Skip("driver only")
+	}
+	var in struct {
+		Backend string `json:"backend"`
+	}
+	if err := vh.Input(&in); err != nil {
+		t.Fatal(err)
+	}
+	out := vh.NewResult()
+	defer out.Write()
+	for _, be := range backends() {
+		if be.name != in.Backend {
+			continue
+		}
+		opener := be.mk()
+		st, err := opener("")
+		if err != nil {
+			t.Fatal(err)
+		}
+		fail := func(what string) {
+			out.Diverge(vh.Divergence{Key: "kv:" + be.name + ":empty-key:" + what,
+				What: "backend " + be.name + ": empty key: " + what, Input: vh.J{"backend": be.name}})
+		}
+		if err := st.Put([]byte{}, []byte("a")); err != nil {
+			fail("put-rejected")
+		}
+		r := &replayer{keys: [][]byte{{}, {0}}, store: st, be: be, opener: opener}
+		// a memtable holding ONLY the empty key (one-row data block) ...
+		if res, _ := r.apply(action{Name: "Flush"}); res.Kind != "ok" {
+			fail("flush-single:" + res.Kind)
+		}
+		time.Sleep(300 * time.Millisecond)
+		// ... and one holding it next to another key
+		_ = st.Put([]byte{}, []byte("a"))
+		_ = st.Put([]byte{0}, []byte("b"))
+		if res, _ := r.apply(action{Name: "Flush"}); res.Kind != "ok" {
+			fail("flush:" + res.Kind)
+		}
+		time.Sleep(300 * time.Millisecond) // background flush/compaction goroutines
+		if res, _ := readRes(r.store, []byte{}); res != (result{Kind: "value", V: "a"}) {
+			fail("get-after-flush:" + res.Kind)
+		}
+		if got := r.dump(); len(got) != 2 || got[0] != "a" || got[1] != "b" {
+			fail(fmt.Sprintf("iteration:%v", got))
+		}
+		if res, _ := r.apply(action{Name: "Reopen"}); res.Kind != "ok" {
+			fail("reopen:" + res.Kind)
+		}
+		if res, _ := readRes(r.store, []byte{}); res != (result{Kind: "value", V: "a"}) {
+			fail("get-after-reopen:" + res.Kind)
+		}
+		r.store.Close()
+		out.Done(1, 6)
 	}
 }
